@@ -23,12 +23,12 @@ tvars == <<wvars, l, bad>>
 
 Blank ==
   /\ recs' = <<>> /\ segs' = <<>> /\ handed' = 0 /\ synced' = 0 /\ pproc' = 0 /\ ppow' = 0
-  /\ enti' = 0 /\ mode' = "none" /\ opt' = FALSE /\ locks' = 1
+  /\ enti' = 0 /\ mode' = "none" /\ opt' = FALSE /\ locks' = [l |-> 1, p |-> 0]
   /\ img' = NoImg /\ snapq' = Snap0 /\ res' = NoRes
 
 TInit ==
   /\ recs = <<>> /\ segs = <<>> /\ handed = 0 /\ synced = 0 /\ pproc = 0 /\ ppow = 0
-  /\ enti = 0 /\ mode = "none" /\ opt = FALSE /\ locks = 1
+  /\ enti = 0 /\ mode = "none" /\ opt = FALSE /\ locks = [l |-> 1, p |-> 0]
   /\ img = NoImg /\ snapq = Snap0 /\ res = NoRes
   /\ l = 1 /\ bad = FALSE
 
@@ -49,8 +49,8 @@ C2 == ResultAllowed(recs, segs, Im, pproc, PF, E.snap, E.res)
 C3 == SucceedsIfRepairable(recs, segs, Im, E.snap, E.res)
 C4 == NothingInvented(recs, E.snap, E.res)
 C5 == E.res.err = "" => E.res2 = E.res
-C6 == E.valid.err # "" \/ \E p \in Allowed(recs, Im, pproc, PF) : SeqSet(E.valid.snaps) = ValidSnaps(Pre(recs, p))
-C7 == E.verify # "" \/ \E p \in Allowed(recs, Im, pproc, PF) : E.snap \in Markers(Pre(recs, p))
+C6 == E.valid.err # "" \/ \E p \in Allowed(recs, Im, pproc, PF) : SeqSet(E.valid.snaps) = ValidSnaps(OnDisk(recs, p))
+C7 == E.verify # "" \/ \E p \in Allowed(recs, Im, pproc, PF) : E.snap \in Markers(OnDisk(recs, p))
 ImageOK == C1 /\ C2 /\ C3 /\ C4 /\ C5 /\ C6 /\ C7
 \* which conjuncts failed, as a bit mask: 1 panic-or-count, 2 durable-prefix, 4 repairable,
 \* 8 invented, 16 second-reopen, 32 valid-snapshots, 64 verify
@@ -73,8 +73,11 @@ TNext ==
                                         <<"save", pproc, ppow, Len(recs)>>)
             [] E.ev = "snap"    -> Step(SaveSnapshot([i |-> E.i, t |-> E.t]) /\ PostOK, <<"snap", Len(recs) + 1>>)
             [] E.ev = "release" -> Step(ReleaseLockTo(E.i) /\ E.err = "", <<"release">>)
+            [] E.ev = "sync"    -> Step(Sync /\ PostOK, <<"sync", Len(recs)>>)
             [] E.ev = "close"   -> Step(Close /\ PostOK, <<"close", Len(recs)>>)
-            [] E.ev = "restart" -> IF E.err = "" THEN Step(Restart, <<"restart">>)
+            [] E.ev = "purge"   -> IF E.removed = 0 /\ E.err = "" THEN UNCHANGED <<wvars, bad>>    \* removing less is fine
+                                   ELSE Step(Purge(E.max, E.removed) /\ E.err = "", <<"purge", MaxPurge(E.max)>>)
+            [] E.ev = "restart" -> IF E.err = "" THEN Step(Restart(E.snap), <<"restart">>)
                                    \* a clean restart may only fail where reading the whole log at that
                                    \* snapshot is an error by the model too (the history ends there)
                                    ELSE IF mode = "closed" /\ ReadFrom(recs, segs, Len(recs), E.snap).err # ""
